@@ -1259,7 +1259,7 @@ func c33RunProgs(c *Ctx, cases []c33ProgCase) {
 		script := c33Render(cases[i].cmds)
 		var res result
 		// A timeout can only come from a starved machine (the programs have no loops): retry.
-		for try := 0; try < 4; try++ {
+		for try := 0; try < 8; try++ {
 			r := runInterp(c, syntax.LangBash, script)
 			res.interp = c33Canon(r)
 			if !r.TimedOut {
